@@ -301,6 +301,21 @@ func (l *ledger) spender(op wire.OutPoint, except *chainhash.Hash) *ltx {
 	return nil
 }
 
+// confirmedSpender: some known CONFIRMED transaction spends op.
+func (l *ledger) confirmedSpender(op wire.OutPoint) bool {
+	for _, t := range l.txs {
+		if !t.alive || t.height < 0 {
+			continue
+		}
+		for _, in := range t.tx.TxIn {
+			if in.PreviousOutPoint == op {
+				return true
+			}
+		}
+	}
+	return false
+}
+
 func (l *ledger) confs(t *ltx) int32 {
 	if !t.alive || t.height < 0 || t.height > l.tip {
 		return 0
